@@ -189,7 +189,8 @@ def emit_lines(p):
     L.append('XFLN ' + ' '.join(p['fx'] + ['0'] * p['pad']))
     L.append('YFLN ' + ' '.join(p['fy'] + ['0'] * p['pad']))
     L += noise[14:]
-    wl = [f'WAVM {i + 1} {w} 1' for i, w in enumerate(p['waves'])]
+    wt = '' if p.get('wavm_weight') is False else ' 1'
+    wl = [f'WAVM {i + 1} {w}{wt}' for i, w in enumerate(p['waves'])]
     wl += [f'WAVM {nw + 1 + i} 0.55 1' for i in range(p['wextra'])]
     pw = f'PWAV {p["pwav"]}'
     L += ([pw] + wl) if p['pwav_first'] else (wl + [pw])
@@ -208,8 +209,16 @@ def emit_lines(p):
         body.append(f'  DISZ {s["disz"]}')
         if s['glass']:
             gl = s['glass']
-            body.append(f'  GLAS {gl["name"]} {r.choice([0, 1])} 0 {gl["nd"]} {gl["vd"]}' +
-                        (' 0 0 0 0 1 0' if r.random() < 0.5 else ''))
+            code, tail = r.choice([0, 1]), (' 0 0 0 0 1 0' if r.random() < 0.5 else '')
+            form = gl.get('form', 'full')
+            if form == 'name':            # vendor files: the glass name only
+                body.append(f'  GLAS {gl["name"]}')
+            elif form == 'codes':         # name and the two integer codes
+                body.append(f'  GLAS {gl["name"]} {code} 0')
+            elif form == 'nd_only':       # numeric fields cut short after n_d
+                body.append(f'  GLAS {gl["name"]} {code} 0 {gl["nd"]}')
+            else:                         # as saved by Zemax
+                body.append(f'  GLAS {gl["name"]} {code} 0 {gl["nd"]} {gl["vd"]}' + tail)
         if s['coni'] is not None:
             body.append(f'  CONI {s["coni"]}')
         if p['noise']:
@@ -219,8 +228,94 @@ def emit_lines(p):
     return L
 
 
+GLAS_FORMS = ['full', 'name', 'codes', 'nd_only']
+WS_STYLES = ['plain', 'tabs', 'multi', 'trailing']
+
+
+def respace(line, style, r):
+    """the same tokens with the whitespace other writers produce"""
+    if style == 'plain' or not line.strip():
+        return line
+    toks = line.split()
+    lead = line[:len(line) - len(line.lstrip())]
+    if style == 'tabs':
+        return ('\t' if lead else '') + '\t'.join(toks)
+    if style == 'multi':
+        return lead + ''.join(t + ' ' * r.choice([1, 2, 4]) for t in toks).rstrip() + ' '
+    return lead + ' '.join(toks) + r.choice(['  ', ' \t', '\t'])
+
+
 def emit_text(p):
-    return p['nl'].join(emit_lines(p)) + p['nl']
+    import random
+    r = random.Random(p['seed'] + 17)
+    style = p.get('ws', 'plain')
+    return p['nl'].join(respace(ln, style, r) for ln in emit_lines(p)) + p['nl']
+
+
+def add_variants(p):
+    """syntactic variants of the same prescription (drawn from a stream of their own, so the prescriptions
+    themselves do not depend on them): GLAS line forms for catalogue glasses, whitespace, WAVM without weight"""
+    import random
+    r = random.Random(p['seed'] + 4711)
+    for s in p['surfs']:
+        gl = s['glass']
+        if gl and gl['class'] == 'catalogue' and gl['name'] in KNOWN_GLASS:
+            gl['form'] = r.choice(['full', 'full', 'name', 'name', 'codes', 'nd_only'])
+    p['ws'] = r.choice(WS_STYLES)
+    p['wavm_weight'] = r.random() < 0.7
+    return p
+
+
+D_LINE = 0.5875618
+
+
+def fixed_prescription(idx, form, ws, model=False):
+    """fixed corpus: a cemented doublet + singlet at the d line, every glass written in the given GLAS form
+    (model=True: unknown names with n_d, V_d written out)"""
+    def gl(name):
+        if model:
+            nd, vd = KNOWN_GLASS[name]
+            return {'name': '___BLANK', 'nd': repr(nd), 'vd': repr(vd), 'class': 'model', 'form': 'full'}
+        nd, vd = KNOWN_GLASS[name]
+        return {'name': name, 'nd': repr(nd), 'vd': repr(vd), 'class': 'catalogue', 'form': form}
+
+    def sf(curv, disz, glass=None, stop=False, coni=None):
+        return {'type': 'STANDARD', 'stop': stop, 'glass': glass, 'coni': coni, 'parm': None, 'extra_parm': False,
+                'curv': curv, 'disz': disz}
+    surfs = [sf('0.0', 'INFINITY'),
+             sf('0.0173', '5.5', gl('N-BAK4'), stop=True), sf('-0.0215', '2.25', gl('N-SF57')), sf('-0.0061', '3.0'),
+             sf('0.004', '4.0', gl('N-SK16'), coni='-0.8'), sf('-0.0125', '88.0'),
+             sf('0.0', '0.0')]
+    return {'idx': idx, 'mode': 'sane', 'surfs': surfs, 'ap': ['ENPD', '18.0'], 'ftype': 0, 'tele': 0,
+            'fx': ['0.0', '0.0'], 'fy': ['0.0', '1.5'], 'pad': 0,
+            'waves': ['0.4861327', repr(D_LINE), '0.6562725'], 'wextra': 0, 'pwav': 2, 'pwav_first': True,
+            'gcat': ['SCHOTT'], 'noise': False, 'seqline': 'MODE SEQ', 'nl': '\r\n', 'seed': 1000 + idx,
+            'mode_first': True, 'ws': ws, 'wavm_weight': idx % 2 == 0, 'glas_form': 'model' if model else form}
+
+
+def ynu_focal_length(exp):
+    """independent paraxial oracle: y-nu trace of the written curvatures / thicknesses with the published n_d
+    (valid at the d line, catalogue and air media only).  None when not applicable"""
+    ss = exp['surfs']
+    if exp['waves'][exp['prim']] != D_LINE:
+        return None
+    n, y, u = 1.0, 1.0, 0.0
+    for k in range(1, len(ss) - 1):
+        s = ss[k]
+        m = s['med']
+        if m['kind'] == 'air':
+            n2 = 1.0
+        elif m['kind'] == 'catalogue' and m.get('nd'):
+            n2 = m['nd']
+        else:
+            return None
+        sh = s['shape']
+        c = 0.0 if sh['geom'] == 'plane' else 1.0 / sh['R']
+        u = (n * u - y * (n2 - n) * c) / n2
+        n = n2
+        if k < len(ss) - 2:
+            y = y + u * s['t']
+    return None if u == 0 else -1.0 / u
 
 
 ENCODINGS = ['utf-8', 'utf-8-sig', 'utf-16-le-bom', 'utf-16-be-bom']
